@@ -408,7 +408,7 @@ type Contracts struct {
 	Ghosts  []Param
 }
 
-var clauseKw = map[string]bool{"uses": true, "law": true, "defines": true, "assumes": true, "requires": true, "ensures": true, "assigns": true, "loop": true, "decreases": true, "property": true,
+var clauseKw = map[string]bool{"excluding": true, "uses": true, "law": true, "defines": true, "assumes": true, "requires": true, "ensures": true, "assigns": true, "loop": true, "decreases": true, "property": true,
 	"pure": true, "inline": true, "appendview": true, "trusted": true, "strings": true, "noinline": true, "params": true}
 
 func parseProps(s *string) []string {
@@ -532,7 +532,7 @@ func loadContracts(path string) (*Contracts, error) {
 				return nil, fail(fmt.Errorf("bad ghost declaration"))
 			}
 			c.Ghosts = append(c.Ghosts, Param{fs[0], strings.TrimSpace(rest[len(fs[0]):])})
-		case "requires", "ensures", "decreases", "defines", "assumes", "law":
+		case "requires", "ensures", "decreases", "defines", "assumes", "law", "excluding":
 			props := parseProps(&rest)
 			name := ""
 			if i := strings.Index(rest, "@@"); i >= 0 { // optional clause name:  name @@ expr
